@@ -192,6 +192,10 @@ pub struct NodeSpec {
     /// address the model hands out from its own `build()` (`BuildContext::address()`).
     #[serde(default)]
     pub late_mailbox: bool,
+    /// The model reads only this many replies of each query it makes and drops the rest of the
+    /// reply iterator (stale reply slots must not leak into the next query).
+    #[serde(default)]
+    pub reply_take: Option<u8>,
 }
 fn yes() -> bool {
     true
